@@ -342,6 +342,10 @@ class Path:
         self.notes = []
         self.last_model = None
         self.pending_model = None
+        self.heap = {}
+        self.heap0 = {}
+        self.obj_ids = {}
+        self.obj_keep = []
         self.bytes_syms = []  # symbolic byte strings: chars <= 255 is imposed per read and at concretisation
 
     # -- symbols
@@ -379,6 +383,21 @@ class Path:
                     self.last_model = None
             except z3.Z3Exception:
                 self.last_model = None
+
+    def use_quantifier_mode(self):
+        """path conditions with quantifiers: decide branch feasibility by E-matching only (MBQI off): `unsat` answers stay
+        sound, `unknown` keeps the branch; this keeps the per-branch cost at milliseconds"""
+        if getattr(self, 'has_quant', False):
+            return
+        self.has_quant = True
+        s2 = z3.Solver()
+        s2.set('auto_config', False)
+        s2.set('mbqi', False)
+        s2.set('timeout', self.engine.branch_timeout_ms)
+        for c in self.pc:
+            s2.add(c)
+        self.solver = s2
+        self.last_model = None
 
     def _feasible(self, c):
         # model-guided: if the last model of this path's pc already satisfies c, no solver call
@@ -528,6 +547,10 @@ def truth(v):
         return len(v.items) > 0
     if isinstance(v, SDict):
         return len(v.items) > 0
+    if type(v).__name__ == 'SymList':
+        return v.length > 0
+    if type(v).__name__ == 'SymObj':
+        return True
     if isinstance(v, Obj):
         c = v.cls
         if isinstance(c, type) and (hasattr(c, '__len__') or hasattr(c, '__bool__')):
@@ -542,6 +565,8 @@ def truth(v):
 
 def eq_values(a, b):
     """a == b as python bool or z3 Bool"""
+    if type(a).__name__ == 'SymObj' or type(b).__name__ == 'SymObj':
+        return _ref_eq(a, b)
     if isinstance(a, Opt) or isinstance(b, Opt):
         if isinstance(a, Opt) and isinstance(b, Opt):
             return z3.Or(z3.And(a.isnone, b.isnone), z3.And(z3.Not(a.isnone), z3.Not(b.isnone), as_bool_term(eq_values(a.val, b.val))))
@@ -580,6 +605,18 @@ def eq_values(a, b):
     if isinstance(a, (Obj, SList, SDict)) or isinstance(b, (Obj, SList, SDict)):
         return False
     raise Unsupported(f'== between {ka} and {kb}')
+
+
+_CUR_PATH = [None]
+
+
+def _ref_eq(a, b):
+    from . import heap as H
+    p = _CUR_PATH[0]
+    if isinstance(a, (Obj, H.SymObj, Opt)) or a is None:
+        if isinstance(b, (Obj, H.SymObj, Opt)) or b is None:
+            return H.obj_id(p, a) == H.obj_id(p, b)
+    return False
 
 
 def _has_sym(v):
@@ -688,6 +725,7 @@ class Interp:
     def __init__(self, path: Path, spec=False):
         self.p = path
         self.spec = spec  # spec mode: no forking, boolean connectives become terms
+        _CUR_PATH[0] = path
 
     # ---- statements
     def exec_block(self, stmts, fr):
@@ -746,10 +784,30 @@ class Interp:
 
     def st_If(self, st, fr):
         c = self.eval(st.test, fr)
-        if self.p.choose(truth(c)):
+        d = self.p.choose(truth(c))
+        self.narrow(st.test, d, fr)
+        if d:
             self.exec_block(st.body, fr)
         else:
             self.exec_block(st.orelse, fr)
+
+    def narrow(self, test, outcome, fr):
+        """after `x is None` / `x is not None` has been decided, an Optional local is replaced by None or its payload"""
+        if isinstance(test, ast.Compare) and len(test.ops) == 1 and isinstance(test.left, ast.Name) and isinstance(test.comparators[0], ast.Constant) \
+                and test.comparators[0].value is None and isinstance(test.ops[0], (ast.Is, ast.IsNot)):
+            try:
+                v = fr.lookup(test.left.id)
+            except Unsupported:
+                return
+            if isinstance(v, Opt):
+                is_none = outcome if isinstance(test.ops[0], ast.Is) else not outcome
+                fr.store(test.left.id, None if is_none else v.val)
+
+    def st_Break(self, st, fr):
+        raise _Break()
+
+    def st_Continue(self, st, fr):
+        raise _Continue()
 
     def st_Raise(self, st, fr):
         if st.exc is None:
@@ -887,6 +945,12 @@ class Interp:
 
     def st_For(self, st, fr):
         it = self.eval(st.iter, fr)
+        it = self.resolve_iterable(it)
+        if type(it).__name__ in ('SymList', 'ListView'):
+            spec = self.loop_spec(st, fr)
+            if spec is not None:
+                return self.loop_with_invariant(st, fr, spec, it)
+            return self.scan_loop(st, fr, it)
         items = self.iter_items(it)
         broke = False
         for x in items:
@@ -901,7 +965,74 @@ class Interp:
         if not broke:
             self.exec_block(st.orelse, fr)
 
+    def resolve_iterable(self, it):
+        """objects iterate through their class' ('iter', cls) model (e.g. a sheet iterates its rule list)"""
+        if isinstance(it, Opt):
+            it = self.unwrap(it, TypeError)
+        if isinstance(it, Obj):
+            m = self.p.engine.models.get(('iter', it.cls))
+            if m is not None:
+                return self.resolve_iterable(m.fn(self, [it], {}))
+        return it
+
+    def scan_loop(self, st, fr, it):
+        """`for x in L: [pure temps;] if c(x): S; <exit>` over a symbolic list that the body does not otherwise touch is
+        summarised exactly: either a first index satisfying c exists (run S there), or no element satisfies c (run else)."""
+        from . import heap as H
+        v = H.view_of(it)
+        body = list(st.body)
+        temps = []
+        while body and isinstance(body[0], ast.Assign) and len(body[0].targets) == 1 and isinstance(body[0].targets[0], ast.Name) and _is_pure(body[0].value):
+            temps.append(body.pop(0))
+        if not (len(body) == 1 and isinstance(body[0], ast.If) and not body[0].orelse and _ends_with_exit(body[0].body) and _is_pure(body[0].test)):
+            raise Unsupported(f'for loop over a symbolic list at line {st.lineno} is not a scan loop and has no invariant')
+        ifs = body[0]
+        self.p.engine.scan_loops += 1
+        p = self.p
+        p.use_quantifier_mode()
+
+        def bind(q, frame):
+            # q is an absolute position in the underlying list (keeps quantifier triggers free of offset arithmetic)
+            el = v.base.at(q)
+            if v.enum:
+                i = ((v.hi - 1 - q) if v.rev else (q - v.lo))
+                if not (isinstance(v.start, int) and v.start == 0):
+                    i = i + v.start
+                self.assign(st.target, (Sym('int', z3.simplify(i) if z3.is_expr(i) else i), el), frame)
+            else:
+                self.assign(st.target, el, frame)
+            for t in temps:
+                sub.exec_stmt(t, frame)
+
+        sub = Interp(p, spec=True)
+
+        def cond_at(q):
+            f2 = Frame(dict(fr.locals), fr.parent, fr.globs, fr.fname)
+            bind(q, f2)
+            return as_bool_term(truth(sub.eval(ifs.test, f2)))
+
+        q = H._bound_var(p, 'q')
+        exists = z3.Exists([q], z3.And(q >= v.lo, q < v.hi, cond_at(q)))
+        if p.choose(exists):
+            h = H._bound_var(p, 'hit')
+            q2 = H._bound_var(p, 'q')
+            p.assume(z3.And(h >= v.lo, h < v.hi, cond_at(h)))
+            earlier = z3.And(q2 > h, q2 < v.hi) if v.rev else z3.And(q2 >= v.lo, q2 < h)
+            p.assume(z3.ForAll([q2], z3.Implies(earlier, z3.Not(cond_at(q2)))))
+            bind(h, fr)
+            try:
+                self.exec_block(ifs.body, fr)
+            except _Break:
+                return
+            raise Unsupported('scan loop body fell through')
+        else:
+            # the negated existential is on the path condition: no element satisfies the test
+            self.exec_block(st.orelse, fr)
+
     def iter_items(self, it):
+        it = self.resolve_iterable(it)
+        if type(it).__name__ in ('SymList', 'ListView'):
+            raise Unsupported('materialising a symbolic list')
         if isinstance(it, SList):
             return _LiveIter(it)
         if isinstance(it, (tuple, list, range, str, bytes, frozenset, set)):
@@ -969,6 +1100,14 @@ class Interp:
         raise Unsupported(f'unpack {kind_of(v)}')
 
     def setattr(self, base, name, v):
+        if type(base).__name__ == 'SymObj':
+            from . import heap as H
+            sm = self.p.engine.models.get(('setattr', base.schema.name, name))
+            if sm is not None:
+                return sm.fn(self, [base, name, v], {})
+            if name in base.schema.fields:
+                return H.write_field(self, base, name, v)
+            raise Unsupported(f'store to {base.schema.name}.{name} (not in schema)')
         if isinstance(base, Obj):
             # property setter?
             c = base.cls
@@ -1020,6 +1159,11 @@ class Interp:
         raise Unsupported(f'setitem on {kind_of(base)}')
 
     def del_subscript(self, base, slc, fr):
+        if type(base).__name__ == 'SymList':
+            from . import heap as H
+            if isinstance(slc, ast.Slice):
+                raise Unsupported('del of a slice of a symbolic list')
+            return H.lst_delete(self, base, self.eval(slc, fr))
         if isinstance(base, SList):
             if isinstance(slc, ast.Slice):
                 lo = self.eval(slc.lower, fr) if slc.lower else None
@@ -1323,6 +1467,14 @@ class Interp:
         if isinstance(op, ast.NotEq):
             return z3_not(eq_values(a, b))
         if isinstance(op, (ast.In, ast.NotIn)):
+            if isinstance(b, _LazyGen):
+                q = self.quantify(b.node, b.frame, 'in', member=a)
+                if q is None:
+                    b = SList(Interp.comp(self, b.node, b.frame))
+                    r = self.contains(b, a)
+                else:
+                    r = q.t
+                return z3_not(r) if isinstance(op, ast.NotIn) else r
             r = self.contains(b, a)
             return z3_not(r) if isinstance(op, ast.NotIn) else r
         # orderings
@@ -1342,6 +1494,10 @@ class Interp:
         raise Unsupported(f'ordering on {ka},{kb}')
 
     def is_(self, a, b):
+        if type(a).__name__ == 'SymObj' or type(b).__name__ == 'SymObj' or (
+                isinstance(a, Opt) and type(a.val).__name__ == 'SymObj' and b is not None) or (
+                isinstance(b, Opt) and type(b.val).__name__ == 'SymObj' and a is not None):
+            return _ref_eq(a, b)
         if isinstance(a, Opt) and b is None:
             return a.isnone
         if isinstance(b, Opt) and a is None:
@@ -1364,6 +1520,11 @@ class Interp:
     def contains(self, cont, x):
         if isinstance(cont, Opt):
             cont = self.unwrap(cont, TypeError)
+        if type(cont).__name__ in ('SymList', 'ListView'):
+            from . import heap as H
+            v = H.view_of(cont)
+            k = H._bound_var(self.p)
+            return z3.Exists([k], z3.And(k >= v.lo, k < v.hi, as_bool_term(eq_values(v.base.at(k), x))))
         if isinstance(cont, (tuple, list, frozenset, set)):
             cs = [eq_values(x, c) for c in cont]
             return z3_or(*cs)
@@ -1402,6 +1563,13 @@ class Interp:
             if self.spec:
                 raise Unsupported(f'None.{name} in spec')
             raise PyRaise(ExcVal(AttributeError))
+        tn = type(base).__name__
+        if tn == 'SymObj':
+            return self.getattr_symobj(base, name)
+        if tn in ('SymList', 'ListView', '_LazyGen'):
+            if name == 'length' and tn == 'SymList':
+                return Sym('int', base.length)
+            return BuiltinMethod(base, name)
         if isinstance(base, Obj):
             if name in base.fields:
                 return base.fields[name]
@@ -1476,6 +1644,33 @@ class Interp:
                 return gm.fn(self, [base], {})
             return raw
 
+    def getattr_symobj(self, o, name):
+        from . import heap as H
+        sch = o.schema
+        M = self.p.engine.models
+        gm = M.get(('getattr', sch.name, name))
+        if gm is not None:
+            return gm.fn(self, [o], {})
+        if name in sch.fields:
+            return H.read_field(self, o, name)
+        mm = M.get(('method', sch.name, name))
+        if mm is not None:
+            return BoundMethod(o, mm, name)
+        c = sch.cls
+        if c is not None:
+            try:
+                raw = inspect.getattr_static(c, name)
+            except AttributeError:
+                raise Unsupported(f'{sch.name}.{name}: not declared in the schema and not a class attribute')
+            if isinstance(raw, property):
+                return self.call_pyfunc(raw.fget, [o], {})
+            if isinstance(raw, types.FunctionType):
+                return BoundMethod(o, raw, name)
+            if isinstance(raw, (staticmethod, classmethod)):
+                return raw.__func__
+            return raw
+        raise Unsupported(f'{sch.name}.{name}')
+
     def ex_Subscript(self, e, fr):
         base = self.eval(e.value, fr)
         if isinstance(e.slice, ast.Slice):
@@ -1495,6 +1690,9 @@ class Interp:
     def slice(self, base, lo, hi):
         if isinstance(base, Opt):
             base = self.unwrap(base, TypeError)
+        if type(base).__name__ == 'SymList':
+            from . import heap as H
+            return H.lst_slice(self, base, lo, hi)
         if isinstance(lo, Opt) or isinstance(hi, Opt):
             raise Unsupported('optional slice bound')
         if not is_sym(base) and not is_sym(lo) and not is_sym(hi):
@@ -1543,6 +1741,9 @@ class Interp:
     def index(self, base, idx):
         if isinstance(base, Opt):
             base = self.unwrap(base, TypeError)
+        if type(base).__name__ == 'SymList':
+            from . import heap as H
+            return H.lst_index(self, base, idx)
         if base is None:
             raise PyRaise(ExcVal(TypeError))
         if isinstance(idx, Opt):
@@ -1617,7 +1818,57 @@ class Interp:
             return self.str_at(base, pos)
         raise Unsupported(f'index into {k}')
 
+    def quantify(self, gen, fr, mode, member=None):
+        """all(...)/any(...)/x in (...) over a generator expression whose iterables are symbolic lists or ranges with
+        symbolic bounds become quantified formulas; returns None when everything is concrete (ordinary expansion)"""
+        from . import heap as H
+        self.p.use_quantifier_mode()
+        sub = Interp(self.p, spec=True)
+        f2 = Frame(dict(), fr, fr.globs, fr.fname)
+        bvars, guards = [], []
+        symbolic = False
+        for g in gen.generators:
+            itv = sub.eval(g.iter, f2)
+            itv = self.resolve_iterable(itv)
+            v = H.view_of(itv)
+            k = H._bound_var(self.p)
+            if v is not None:
+                symbolic = True
+                bvars.append(k)
+                guards.append(z3.And(k >= v.lo, k < v.hi))
+                el = v.base.at(k)
+                if v.enum:
+                    i = (v.hi - 1 - k) if v.rev else (k - v.lo)
+                    sub.assign(g.target, (Sym('int', i), el), f2)
+                else:
+                    sub.assign(g.target, el, f2)
+            elif isinstance(itv, _SymRange):
+                symbolic = True
+                bvars.append(k)
+                guards.append(z3.And(k >= itv.lo, k < itv.hi))
+                sub.assign(g.target, Sym('int', k), f2)
+            else:
+                return None  # concrete iterable: let the caller expand (only supported as the single/outer generator)
+            for c in g.ifs:
+                guards.append(as_bool_term(truth(sub.eval(c, f2))))
+        if not symbolic:
+            return None
+        body = sub.eval(gen.elt, f2)
+        if mode == 'all':
+            r = z3.ForAll(bvars, z3.Implies(z3.And(*guards), as_bool_term(truth(body))))
+        elif mode == 'any':
+            r = z3.Exists(bvars, z3.And(*(guards + [as_bool_term(truth(body))])))
+        else:
+            r = z3.Exists(bvars, z3.And(*(guards + [as_bool_term(eq_values(body, member))])))
+        return Sym('bool', r)
+
     def ex_Call(self, e, fr):
+        if isinstance(e.func, ast.Name) and e.func.id in ('all', 'any') and len(e.args) == 1 and isinstance(e.args[0], (ast.GeneratorExp, ast.ListComp)):
+            fobj = fr.lookup(e.func.id)
+            if fobj in (all, any):
+                q = self.quantify(e.args[0], fr, e.func.id)
+                if q is not None:
+                    return q
         f = self.eval(e.func, fr)
         args = []
         for a in e.args:
@@ -1762,10 +2013,22 @@ class Interp:
         return None
 
     def ex_ListComp(self, e, fr):
+        if self._gen_over_symbolic(e, fr):
+            return _LazyGen(e, fr)
         return SList(self.comp(e, fr))
 
     def ex_GeneratorExp(self, e, fr):
+        if self._gen_over_symbolic(e, fr):
+            return _LazyGen(e, fr)
         return SList(self.comp(e, fr))
+
+    def _gen_over_symbolic(self, e, fr):
+        try:
+            itv = Interp(self.p, spec=True).eval(e.generators[0].iter, fr)
+        except (Unsupported, PyRaise):
+            return False
+        itv = self.resolve_iterable(itv)
+        return type(itv).__name__ in ('SymList', 'ListView', '_SymRange')
 
     def ex_SetComp(self, e, fr):
         vals = self.comp(e, fr)
@@ -1836,6 +2099,20 @@ class Interp:
         raise Unsupported('loop invariants not wired for this target')
 
 
+class _LazyGen:
+    """a generator expression over a symbolic list, consumed by `in` / all / any as a quantifier"""
+
+    def __init__(self, node, frame):
+        self.node = node
+        self.frame = frame
+
+
+class _SymRange:
+    def __init__(self, lo, hi):
+        self.lo = lo
+        self.hi = hi
+
+
 class _Items:
     def __init__(self, lst):
         self.lst = lst
@@ -1857,6 +2134,26 @@ class _LiveIter:
             self.i += 1
             return v
         raise StopIteration
+
+
+def _is_pure(e):
+    """syntactic purity: no calls except attribute reads / comparisons / constant containers / isinstance"""
+    for n in ast.walk(e):
+        if isinstance(n, ast.Call):
+            f = n.func
+            if isinstance(f, ast.Name) and f.id in ('isinstance', 'len', 'hasattr', 'getattr'):
+                continue
+            return False
+        if isinstance(n, (ast.Yield, ast.YieldFrom, ast.Await, ast.NamedExpr, ast.Lambda)):
+            return False
+    return True
+
+
+def _ends_with_exit(stmts):
+    if not stmts:
+        return False
+    last = stmts[-1]
+    return isinstance(last, (ast.Break, ast.Return, ast.Raise))
 
 
 def _load(t):
